@@ -130,7 +130,7 @@ T = {
  "C03-r2m2": ("C03", "State::LeadingZero arms reordered: the name-start reject arm shadows the exponent arm", "`0e5`, `-0E+12`: integer part exactly 0 directly followed by an exponent", ""),
  "C07-r2m1": ("C07", "field_set: end-of-input check only in the else branch of `if has_braces`", "a braced field set followed by another token: `{ a } b`", ""),
  "C07-r2m2": ("C07", "lexer State::Comment ends only at LF", "`Int # c\\rx`: a comment after the construct ended by a lone CR, extra token on the next line", ""),
- "C10-r2m1": ("C10", "Name byte classes via a 128-entry table indexed with `byte & 0x7F`", "a non-ASCII character whose UTF-8 bytes alias onto name characters (U+00B0..B9, U+00F0..F9: `ñ`, `²`)", ""),
+ "C10-r2m1": ("C10", "Name byte classes via a 128-entry table indexed with `byte & 0x7F`", "a non-ASCII character whose UTF-8 bytes alias onto name characters (U+00B0..B9, U+00F0..F9: `ñ`, `²`)", "C10 edge alphabet: `ñ`, `²` (added before this seed was evaluated)"),
  "C10-r2m2": ("C10", "FloatValue Deserialize::visit_string checks the Int grammar", "a deserializer that hands over an owned String (serde_json::from_value), value `3.5` or `3`", ""),
  "C33-m2": ("C33", "collect_fields: a fragment spread's fields replace nothing but are not merged into an already collected key", "same composite response key twice, the later occurrence from a named fragment with an extra sub-field", ""),
 }
